@@ -32,6 +32,8 @@ import Verif.Model.Common
     authority/tls.go  Sign (lifetime), renewContext (duration, lifetime)
     cas/softcas/softcas.go  CreateCertificate / RenewCertificate date arithmetic (+ DER second precision)
     authority/ssh.go  renewSSH / rekeySSH date arithmetic
+    api/ssh.go identityModifier, api/sshRenew.go + api/sshRekey.go renewIdentityCertificate (`identityRenew`)
+    authority/provisioners.go claimsToLinkedca / claimsToCertificates (`migrateClaims`)
     controller.go DefaultAuthorizeSSHRenew / sshpop.go authorizeToken validity gate (`renewGate`)
     acme/api/order.go NewOrder date defaulting; acme/order.go Finalize pass-through
 -/
@@ -69,7 +71,7 @@ inductive Rej where
   | tokEpoch                                 -- JWK / X5C / Nebula AuthorizeSSHSign (token options)
   | badType | typeUnset | typeUnknown | vaZero | vbBeforeVa
   | dvaZero | dpast | dvbBeforeVa | dbadType -- sshCertDefaultValidator
-  | noValidity                               -- renewSSH / rekeySSH
+  | noValidity | renewPeriod                 -- renewSSH / rekeySSH (sshCertificateDuration)
   deriving Repr, DecidableEq
 
 inductive Out (α : Type) where
@@ -500,9 +502,13 @@ def sshSign (cl : Claimer) (m : SshMode) (now : Int) (user tok : SshOpts) (c0 : 
   let mods ← tokenMods now tok
   sshSignWith cl m now user mods c0
 
-/-- authority/ssh.go renewSSH / rekeySSH date arithmetic (`anow` = the authority's `time.Now()`) -/
+/-- authority/ssh.go renewSSH / rekeySSH date arithmetic (`anow` = the authority's `time.Now()`), as of
+    fix b334f43: `sshCertificateDuration` refuses (400) `ValidBefore < ValidAfter` and periods longer than
+    `MaxInt64/1e9` seconds before the (now safe) `cast.Int64` and the nanosecond product. -/
 def sshRenewDates (anow backdate : Int) (old : SshCert) : Out SshCert :=
   if old.va = 0#64 ∨ old.vb = 0#64 then .rej .noValidity
+  else if old.vb < old.va then .rej .renewPeriod
+  else if (old.vb - old.va).toNat > 9223372036 then .rej .renewPeriod
   else do
     let di ← castI64 (old.vb - old.va)
     let duration := secsToDur di
@@ -536,7 +542,52 @@ def renewGate (unixNow : Int) (allowExpired : Bool) (c : SshCert) : Bool :=
 def sshRenewAuthorized (unixNow anow backdate : Int) (allowExpired : Bool) (old : SshCert) : Option (Out SshCert) :=
   if renewGate unixNow allowExpired old then some (sshRenewDates anow backdate old) else none
 
+/-! ## Identity certificate (api/ssh.go identityModifier, api/sshRenew.go, api/sshRekey.go) -/
+
+/-- `time.Unix(cast.Int64(x), 0)` as a flat X.509 instant -/
+def unixInstant (x : U64) : Out Int := do
+  let s ← castI64 x
+  pure (wrap64 (s + unixToInternal) * second)
+
+/-- `/ssh/sign` with an identity CSR: `identityModifier.Enforce` sets the identity certificate's
+    `NotBefore`/`NotAfter` to the signed SSH certificate's `ValidAfter`/`ValidBefore`. -/
+def identitySign (c : SshCert) : Out Cert := do
+  let nb ← unixInstant c.va
+  let na ← unixInstant c.vb
+  pure ⟨nb, na⟩
+
+/-- `/ssh/renew`, `/ssh/rekey`: `renewIdentityCertificate` clones the TLS client certificate, gives the
+    clone the validity window of the **old** SSH certificate and passes it to `Authority.Renew`
+    (`x509Renew`): the renewed identity certificate gets that window's duration, starting now − backdate. -/
+def identityRenew (casNow backdate : Int) (old : SshCert) : Out Cert := do
+  let w ← identitySign old
+  x509Renew casNow backdate w
+
+/-- the whole handler after authorization: new SSH certificate, then the identity certificate -/
+def sshRenewWithIdentity (anow casNow backdate : Int) (old : SshCert) : Out (SshCert × Cert) := do
+  let c ← sshRenewDates anow backdate old
+  let i ← identityRenew casNow backdate old
+  pure (c, i)
+
+/-! ## Migration of ca.json provisioners into the admin database (authority/provisioners.go) -/
+
+/-- `claimsToCertificates (claimsToLinkedca c)` on the duration pointers: the X.509 block is written when
+    any of its three durations is set, each duration travels as its `String()` (`""` = nil); the SSH
+    blocks are written only when `enableSSHCA` is set and true. -/
+def migrateClaims (sshEnabled : Bool) (c : Option Claims) : Option Claims :=
+  c.map fun c => if sshEnabled then c else { minTLS := c.minTLS, maxTLS := c.maxTLS, defTLS := c.defTLS }
+
 /-! ## Historic (pre-fix) variants, kept for the refutation witnesses D6 / D7 -/
+
+/-- renewSSH / rekeySSH before fix b334f43: `cast.Int64(ValidBefore − ValidAfter)` unguarded -/
+def sshRenewDatesBefore (anow backdate : Int) (old : SshCert) : Out SshCert :=
+  if old.va = 0#64 ∨ old.vb = 0#64 then .rej .noValidity
+  else do
+    let di ← castI64 (old.vb - old.va)
+    let duration := secsToDur di
+    let va ← castU64 (unixOf (anow + wrap64 (-1 * backdate)))
+    let vb ← castU64 (unixOf (anow + wrap64 (duration - backdate)))
+    pure { old with va := va, vb := vb }
 
 /-- `sshCertValidityValidator.Valid` before fix 1fe6db7: no guard in front of the wrapping multiply -/
 def sshValidityValidUnguarded (cl : Claimer) (now backdate : Int) (c : SshCert) : Out Unit :=
